@@ -129,7 +129,7 @@ def run(ctx):
     from checks import c07
     scs, r = progcheck.tlc_scenarios(ctx, "Scope", c07.cfg("all" if thorough else "quick"), "c12_scope")
     total += len(scs)
-    scs = [sc for sc in scs if sc["slot"] not in ("F0", "G0") and sc["kind"] in ("IMM01", "CTOR01", "CTOR03", "TONL01", "TONL02", "PKGO01", "PKGO03")]
+    scs = [sc for sc in scs if sc["slot"] not in ("F0", "F0d", "G0") and sc.get("slot2") != "F0" and sc["kind"] in ("IMM01", "CTOR01", "CTOR03", "TONL01", "TONL02", "PKGO01", "PKGO03")]
     pick = progcheck.sample(scs, 3000 if thorough else 500, ctx.seed)
     items = []
     for i, sc in enumerate(pick):
@@ -148,7 +148,7 @@ def run(ctx):
         by_kind["ignore:" + "+".join(kinds)] = by_kind.get("ignore:" + "+".join(kinds), 0) + 1
         tprog, _ = layout.transform(prog, "m/u", rng, kinds)
         tprog["id"] = prog["id"] + "_t"
-        meta = {"module": "Scope", "scenario": {k: sc[k] for k in ("kind", "slot", "list")}, "transform": list(kinds)}
+        meta = {"module": "Scope", "scenario": {k: sc[k] for k in ("kind", "slot", "slot2", "list")}, "transform": list(kinds)}
         items.append((prog, e_inv, meta, pr, code))
         items.append((tprog, e_inv, meta, project_factory(tprog, "m/u", None), code))
     res = proglib.run_vh(ctx, [it[0] for it in items])
